@@ -30,27 +30,36 @@ Record call := mkCall {
   c_fires : list outcome      (* every callback/errback invocation on the Deferred, in order *)
 }.
 
+(* an entry of the process-wide eventual-send queue (eventual.py _SimpleCallQueue._events) *)
+Inductive qentry :=
+| EFail (h : nat) (o : outcome)   (* eventually(req.fail, why) queued by abandonAllRequests *)
+| EForeign (raises : bool).       (* any other callable: a notifyOnDisconnect handler, an application's eventually(), another
+                                     connection's work; `raises` = it raises an exception when it is run *)
+
 Record st := mkSt {
   calls : list call;
   table : list (Z * nat);     (* Broker.waitingForAnswers: reqID -> handle, insertion order *)
   disconnected : bool;        (* Broker.disconnected *)
   nextid : Z;                 (* next value of Broker.nextReqID *)
-  evq : list (nat * outcome); (* queued eventually(req.fail, why) *)
-  raised : nat                (* number of KeyErrors raised by removeRequest *)
+  evq : list qentry;          (* the eventual-send queue, oldest first *)
+  raised : nat;               (* number of KeyErrors raised by removeRequest *)
+  batch : nat                 (* how many entries at the head of evq belong to the _turn() that is running (0: none) *)
 }.
 
-Definition init : st := mkSt [] [] false first_reqid [] 0.
+Definition init : st := mkSt [] [] false first_reqid [] 0 0.
 
 Definition set_calls (s : st) (l : list call) : st :=
-  mkSt l (table s) (disconnected s) (nextid s) (evq s) (raised s).
+  mkSt l (table s) (disconnected s) (nextid s) (evq s) (raised s) (batch s).
 Definition set_table (s : st) (t : list (Z * nat)) : st :=
-  mkSt (calls s) t (disconnected s) (nextid s) (evq s) (raised s).
-Definition set_evq (s : st) (q : list (nat * outcome)) : st :=
-  mkSt (calls s) (table s) (disconnected s) (nextid s) q (raised s).
+  mkSt (calls s) t (disconnected s) (nextid s) (evq s) (raised s) (batch s).
+Definition set_evq (s : st) (q : list qentry) : st :=
+  mkSt (calls s) (table s) (disconnected s) (nextid s) q (raised s) (batch s).
 Definition set_disconnected (s : st) : st :=
-  mkSt (calls s) (table s) true (nextid s) (evq s) (raised s).
+  mkSt (calls s) (table s) true (nextid s) (evq s) (raised s) (batch s).
+Definition set_batch (s : st) (b : nat) : st :=
+  mkSt (calls s) (table s) (disconnected s) (nextid s) (evq s) (raised s) b.
 Definition bump_raised (s : st) : st :=
-  mkSt (calls s) (table s) (disconnected s) (nextid s) (evq s) (S (raised s)).
+  mkSt (calls s) (table s) (disconnected s) (nextid s) (evq s) (S (raised s)) (batch s).
 
 Fixpoint upd (h : nat) (f : call -> call) (l : list call) {struct l} : list call :=
   match l, h with
@@ -114,7 +123,7 @@ Definition fail_step (s : st) (h : nat) (o : outcome) : st := fst (exec_ps Pendi
 (* ---- Broker.finish(why); `o` is what `why` becomes for the requests (see reason_outcome below) *)
 Definition abandon (s : st) (o : outcome) : st :=
   match abandon_mode_of_source with
-  | AbandonEventually => set_evq s (evq s ++ map (fun e => (snd e, o)) (table s))
+  | AbandonEventually => set_evq s (evq s ++ map (fun e => EFail (snd e) o) (table s))
   | AbandonDirect => fold_left (fun s' e => fail_step s' (snd e) o) (table s) s
   end.
 
@@ -163,7 +172,7 @@ Inductive callkind :=
 
 Definition push (s : st) (c : call) : st := set_calls s (calls s ++ [c]).
 Definition take_id (s : st) : st :=
-  mkSt (calls s) (table s) (disconnected s) (nextid s + 1) (evq s) (raised s).
+  mkSt (calls s) (table s) (disconnected s) (nextid s + 1) (evq s) (raised s) (batch s).
 
 Definition call_step (s : st) (k : callkind) : st :=
   let h := List.length (calls s) in
@@ -184,6 +193,25 @@ Definition call_step (s : st) (k : callkind) : st :=
       else push (take_id s) (mkCall (nextid s) true false false [OLocal])
   end.
 
+(* ---- _SimpleCallQueue._turn: the events present when the turn starts form its batch (turn_takes_snapshot); they run in
+   order; what an exception raised by one of them does to the rest of the batch is the translated turn_mode_of_source *)
+Definition turn_step (s : st) : st :=
+  match evq s with
+  | [] => set_batch s 0
+  | e :: q =>
+    let b := Nat.pred (if Nat.eqb (batch s) 0 then List.length (evq s) else batch s) in   (* left in this batch after e *)
+    let s1 := set_batch (set_evq s q) b in
+    match e with
+    | EFail h o => fail_step s1 h o
+    | EForeign false => s1
+    | EForeign true =>
+        match turn_mode_of_source with
+        | TurnIsolatesEvents => s1                                        (* try/except around each event *)
+        | TurnStopsAtFirstException => set_batch (set_evq s (skipn b q)) 0  (* the loop ends: the rest of the batch is dropped *)
+        end
+    end
+  end.
+
 (* ---- operations *)
 Inductive op :=
 | Call (k : callkind)
@@ -193,7 +221,8 @@ Inductive op :=
 | Complete (h : nat)          (* complete() on an already bound request object (answer finished late) *)
 | Fail (h : nat) (o : outcome)(* fail() on a request object: send failure (OSendFail), late failure *)
 | Finish (r : reason)         (* connectionLost(why) / shutdown(why); r classifies why *)
-| Turn.                       (* the eventual-send queue runs its oldest entry *)
+| Enqueue (raises : bool)     (* somebody else calls eventually(f): disconnect watcher, application code, another broker *)
+| Turn.                       (* the eventual-send queue runs its oldest entry (one iteration of the loop of _turn) *)
 
 Definition step (s : st) (x : op) : st :=
   match x with
@@ -204,7 +233,8 @@ Definition step (s : st) (x : op) : st :=
   | Complete h => complete_step s h
   | Fail h o => fail_step s h o
   | Finish r => finish_step s (reason_outcome r)
-  | Turn => match evq s with [] => s | (h, o) :: q => fail_step (set_evq s q) h o end
+  | Enqueue r => set_evq s (evq s ++ [EForeign r])
+  | Turn => turn_step s
   end.
 
 Definition run (ops : list op) : st := fold_left step ops init.
@@ -214,10 +244,13 @@ Definition run_from (s : st) (ops : list op) : st := fold_left step ops s.
 Definition ocode (o : outcome) : Z :=
   match o with OResult => 1 | ORemoteError => 2 | OViolation => 3 | ODeadRef => 4 | OSendFail => 5 | OLocal => 6 | OOther => 7 end.
 
+Definition qcode (e : qentry) : Z :=
+  match e with EFail h _ => Z.of_nat h | EForeign false => -3 | EForeign true => -4 end.
+
 Definition snapshot (s : st) : list Z * list (list Z) * (bool * list Z * Z) :=
   (map fst (table s),
    map (fun c => map ocode (c_fires c)) (calls s),
-   (disconnected s, map (fun e => Z.of_nat (fst e)) (evq s), Z.of_nat (raised s))).
+   (disconnected s, map qcode (evq s), Z.of_nat (raised s))).
 
 Fixpoint snapshots (s : st) (ops : list op) {struct ops} : list (list Z * list (list Z) * (bool * list Z * Z)) :=
   match ops with
